@@ -599,6 +599,7 @@ func GenWeighted(rng *rand.Rand) (*World, []WeightedName) {
 		}
 		return net.IPv4(192, 0, byte(2+ipn>>8), byte(ipn))
 	}
+	fam := 0 // 0: both families, 4 / 6: addresses of that family only
 	fill := func(name string, wild bool) {
 		k := 1 + rng.Intn(8)
 		shape := rng.Intn(6)
@@ -619,7 +620,11 @@ func GenWeighted(rng *rand.Rand) (*World, []WeightedName) {
 			case 1:
 				loc = "bb"
 			}
-			b.addrLineExact(name, wild, loc, nextIP(rng.Intn(3) == 0), uint32(60+rng.Intn(1000)), wt)
+			v6 := rng.Intn(3) == 0
+			if fam != 0 {
+				v6 = fam == 6
+			}
+			b.addrLineExact(name, wild, loc, nextIP(v6), uint32(60+rng.Intn(1000)), wt)
 		}
 	}
 	for i := 0; i < 10; i++ {
@@ -635,6 +640,17 @@ func GenWeighted(rng *rand.Rand) (*World, []WeightedName) {
 	fill("nse.example.com", false)
 	b.mxLine("mxn.example.com", "", "mail.example.com", nil)
 	fill("mail.example.com", false)
+	// two MX records naming one host whose addresses are all of one family (the host must still appear once per family)
+	b.mxLine("mx2.example.com", "", "mail4.example.com", nil)
+	b.mxLine("mx2.example.com", "", "mail4.example.com", nil)
+	fam = 4
+	fill("mail4.example.com", false)
+	b.mxLine("mx3.example.com", "", "mail6.example.com", nil)
+	b.mxLine("mx3.example.com", "", "mail6.example.com", nil)
+	b.mxLine("mx3.example.com", "", "mail.example.com", nil)
+	fam = 6
+	fill("mail6.example.com", false)
+	fam = 0
 	for _, r := range w.Recs {
 		w.Owners = append(w.Owners, r.Owner)
 	}
